@@ -82,7 +82,23 @@ fn rk(op: &str, a: Decimal, b: Decimal) -> String {
 #[cfg(not(feature = "rkyv"))]
 fn rk(_op: &str, _a: Decimal, _b: Decimal) -> String { "BADOP".into() }
 
+#[cfg(feature = "serde")]
+fn sd(op: &str, a: Decimal) -> String {
+    match op {
+        "serde_to_json" => match serde_json::to_string(&a) { Ok(s) => format!("S:{}", hex(&s)), Err(_) => "ERR:ser".into() },
+        "serde_roundtrip" => match serde_json::to_string(&a) {
+            Ok(s) => match serde_json::from_str::<Decimal>(&s) { Ok(v) => d(v), Err(_) => "ERR:de".into() },
+            Err(_) => "ERR:ser".into() },
+        _ => "BADOP".into(),
+    }
+}
+#[cfg(not(feature = "serde"))]
+fn sd(_op: &str, _a: Decimal) -> String { "BADOP".into() }
+
 fn run(op: &str, l: &V, r: &V, n: i32, prec: Option<usize>) -> String {
+    if op.starts_with("serde_") {
+        return match l { V::D(a) => sd(op, *a), _ => "BADARG".into() };
+    }
     if op.starts_with("rkyv_") {
         return match (l, r) {
             (V::D(a), V::D(b)) => rk(op, *a, *b),
